@@ -388,13 +388,10 @@ class Jackknife:
         for i in range(len(jackknife_samples)):
             variance_samples += (jackknife_samples[i] - mean_samples) ** 2.0
 
-        if delete_n_points == 1:
-            variance_samples *= (len(jackknife_samples) - 1) / len(
-                jackknife_samples
-            )
-        else:
-            variance_samples *= (len(data) - delete_n_points) / (
-                delete_n_points * len(jackknife_samples)
-            )
+        # delete-d jackknife: (n - d) / (d * N) for n data points, d deleted
+        # points and N jackknife samples; for d = 1 this is (n - 1) / N
+        variance_samples *= (len(data) - delete_n_points) / (
+            delete_n_points * len(jackknife_samples)
+        )
 
         return np.sqrt(variance_samples)
